@@ -655,6 +655,10 @@ func (tic *TermInCommittee) HandleViewChange(vcm *interfaces.ViewChangeMessage) 
 	}
 
 	header := vcm.Content().SignedHeader()
+	if vcm.Block() == nil && header.PreparedProof() != nil && len(header.PreparedProof().Raw()) > 0 {
+		tic.logger.Info("LHMSG RECEIVED VIEW_CHANGE IGNORE - message carries a prepared proof but not the block it certifies")
+		return
+	}
 	if vcm.Block() != nil && header.PreparedProof() != nil {
 		isValidDigest := tic.blockUtils.ValidateBlockCommitment(vcm.BlockHeight(), vcm.Block(), header.PreparedProof().PreprepareBlockRef().BlockHash())
 		if !isValidDigest {
